@@ -106,6 +106,18 @@ Example c09_example_error_delivered :
   quiescent s = true /\ resolved s = true /\ target s = 0 /\ terr s = 5 /\ map rlast (refs s) = [Some (NRes 1 5)].
 Proof. vm_compute. repeat split; reflexivity. Qed.
 
+(* a failing resolver that returns the empty value with its error (`return zero, nil, err`): the error is delivered to the
+   error container and, as (true, 0, err), to every reference callback, also to one added later; released() tells them
+   "gone", clears the error container and resolves afresh *)
+Example c09_example_error_empty_delivered :
+  let es := [ESetCtx 1; EAddRef 1; EProceed 0 true; EResReturn 0 0 false 5; EStore 0; EAddRef 1] in
+  let s := run repaired (init false) es in
+  quiescent s = true /\ resolved s = true /\ value s = 0 /\ target s = 0 /\ terr s = 5 /\
+  map rlast (refs s) = [Some (NRes 0 5); Some (NRes 0 5)] /\
+  let s' := step repaired s (EReleased 0) in
+  resolved s' = false /\ terr s' = 0 /\ map rlast (refs s') = [Some NGone; Some NGone] /\ length (gs s') = 2.
+Proof. vm_compute. repeat split; reflexivity. Qed.
+
 Example c09_example_released_restarts :
   let s := run repaired (init false) [ESetCtx 1; EAddRef 1; EProceed 0 true; EResReturn 0 1 true 0; EStore 0; EReleased 0] in
   resolved s = false /\ target s = 0 /\ length (gs s) = 2 /\ map rlast (refs s) = [Some NGone].
